@@ -4,6 +4,7 @@ Real function executed symbolically: panqec.cli.run_parallel (the click callback
 with a SYMBOLIC number of trials; glob / os side effects / multiprocessing are recorder stubs."""
 import itertools
 import json
+import os
 import sys
 import time
 
@@ -82,7 +83,72 @@ def run_all_jobs(cli, trials, N, C, n_inputs, cpu_count=None):
     return [(p.args[0], p.args[1], p.args[2]) for p in rec.procs], names
 
 
+def run_task(t, compressed):
+    """What run_parallel launches per task: the real run_file(input, result, n_runs) in a temporary
+    directory; returns {simulation index: number of trials on disk} (None: no result file)."""
+    import contextlib
+    import io
+    import shutil
+    import tempfile
+    from panqec.simulation import run_file
+    from panqec.utils import load_json
+    root = tempfile.mkdtemp(prefix='c14task_')
+    try:
+        inp = os.path.join(root, 'input.json')
+        spec = {'ranges': {'label': 'x', 'code': {'name': 'Toric2DCode', 'parameters': [{'L_x': 2, 'L_y': 2}]},
+                           'error_model': {'name': 'PauliErrorModel', 'parameters': [{'r_x': 1 / 3, 'r_y': 1 / 3, 'r_z': 1 / 3}]},
+                           'decoder': {'name': 'MatchingDecoder', 'parameters': [{}]}, 'error_rate': [0.1, 0.2]}}
+        with open(inp, 'w') as f:
+            json.dump(spec, f)
+        out = os.path.join(root, 'results_1.json' + ('.gz' if compressed else ''))
+        with contextlib.redirect_stdout(io.StringIO()), contextlib.redirect_stderr(io.StringIO()):
+            run_file(inp, out, t, log_file=os.path.join(root, 'progress.txt'), verbose=False)
+        if not os.path.exists(out):
+            return None
+        data = load_json(out)
+        return {i: (len(e['results']['success']), len(e['results']['effective_error']), len(e['results']['codespace']))
+                for i, e in enumerate(data)}
+    finally:
+        shutil.rmtree(root, ignore_errors=True)
+
+
+def w_task(cfg, tier):
+    """'task': every task gets a result file of its own holding its trials -- the real run_file, for a
+    solver-chosen (realised) trial count (the counts run_parallel can hand out start at 1) and both output
+    formats, one forked process per run."""
+    from panqec.simulation import run_file
+    col = hz.Collector(cfg)
+    col.encoded(run_file)
+    hi = 3 if tier == 'quick' else 6
+    eng = Engine(name=cfg)
+    with eng:
+        t = eng.integer('n_runs', 1, hi)
+        c = eng.integer('compressed', 0, 1)
+
+        def fn():
+            tt, cc = int(t), bool(int(c))
+            return tt, cc, hz.in_forked_child(lambda: run_task(tt, cc))
+        ps = eng.explore(fn)
+    col.absorb(eng)
+    bad, w = [], [None]
+    for p in ps:
+        if p.exc is not None:
+            bad.append(z3_and(p.pc))
+            w[0] = w[0] or dict(task=True, exception=f'{type(p.exc).__name__}: {p.exc}')
+            continue
+        tt, cc, got = p.value
+        ok = got is not None and len(got) == 2 and all(v == (tt, tt, tt) for v in got.values())
+        bad.append(z3_and(p.pc + [z3.BoolVal(not ok)]))
+        if not ok and (w[0] is None or 'n_runs' not in w[0]):
+            w[0] = dict(task=True, n_runs=tt, compressed=cc, on_disk=str(got))
+    col.prove('C14/task/result-file-exists-and-holds-exactly-the-task-trials', eng.base, z3_or(bad), lambda m: w[0],
+              f'{len(ps)} realised (n_runs in 1..{hi}, output format) runs of the real run_file, 2 simulations each')
+    return col.result()
+
+
 def worker(cfg, tier='quick'):
+    if cfg.startswith('task'):
+        return w_task(cfg, tier)
     import panqec.cli as cli
     parts = dict(p.split('=') for p in cfg.split())
     N, C, n_inputs = int(parts['N']), int(parts['C']), int(parts['inputs'])
@@ -140,6 +206,17 @@ def replay(path):
         d = json.load(f)
     w, oid = d['witness'], d['oid']
     bad = False
+    if w.get('task'):
+        if 'n_runs' in w:
+            got = run_task(w['n_runs'], w['compressed'])
+            print('n_runs', w['n_runs'], 'compressed', w['compressed'], 'on disk:', got)
+            bad = got is None or len(got) != 2 or any(v != (w['n_runs'],) * 3 for v in got.values())
+        else:
+            print(w.get('exception'))
+            res = worker(d['config'])
+            bad = any(o['oid'] == oid and o['verdict'] == 'sat' for o in res['obs'])
+        print('REPLAY', 'reproduced' if bad else 'not-reproduced', oid, d['config'])
+        return 0
     try:
         procs, names = run_all_jobs(cli, w['trials'], w['N'], w['C'], w['inputs'])
         per = {nm: 0 for nm in names}
@@ -162,7 +239,7 @@ def replay(path):
 
 
 def configs(tier):
-    out = []
+    out = ['task']
     hi = 3 if tier == 'quick' else 7
     for N, C in itertools.product(range(1, hi + 1), repeat=2):
         for n_inputs in range(1, N * C + 1):
